@@ -837,7 +837,14 @@ def check_pbkdf2(ck_ob, mod, label):
         return ck_ob(cond, rule, f.name, "%s[%s]" % (construct, label), ok_, bad_, where or w0)
 
     def wp(phi, ini):
-        return phi.bits == 64 and ini is not None and not is_word(ini) and ini.const() == 1
+        # the block number is data (its big-endian bytes are absorbed) - unless it is also what a loop test compares: then it stays a
+        # linear form, and the executor turns it into the same symbolic word where its bytes are taken
+        if not (phi.bits == 64 and ini is not None and not is_word(ini) and ini.const() == 1):
+            return False
+        for J in f.insts:
+            if J.op == "icmp" and any(tuple(o) == ("i", phi.id) for o in J.ops if isinstance(o, (list, tuple))):
+                return False
+        return True
     ex = irx.Exec(f, Handler(), havoc="auto", auto=True, split_max=32, word_phis=wp, fresh_per_entry=True)
     ps = ex.run(max_paths=4000)
     no_data_branches(f, ps)
